@@ -26,7 +26,7 @@ ASSUMPTIONS = [
 ]
 EXHAUSTIVE = {"quick": True, "thorough": True}
 SHARDS = {"quick": 12, "thorough": 14}
-FLOORS = {"quick": {"contract_evaluations_in_repo_tests": 200, "accepted_calls": 20000, "ignore_lists_checked": 20000, "method_calls": 8000},
+FLOORS = {"quick": {"calls_with_falsy_or_mutable_defaults": 10000, "contract_evaluations_in_repo_tests": 200, "accepted_calls": 20000, "ignore_lists_checked": 20000, "method_calls": 8000},
           "thorough": {"contract_evaluations_in_repo_tests": 200, "accepted_calls": 100000, "ignore_lists_checked": 100000, "method_calls": 40000}}
 
 
@@ -37,8 +37,10 @@ def cases(tier, seed):
         for method in (False, True):
             if method and len(sig) > (5 if tier == "quick" else 6):
                 continue
-            chunk.append(dict(sig=[list(s) for s in sig], method=method))
-            if len(chunk) == 8:
+            chunk.append(dict(sig=[list(s) for s in sig], method=method, dstyle=0))
+            if any(x[2] for x in sig):
+                chunk.append(dict(sig=[list(s) for s in sig], method=method, dstyle=1))
+            if len(chunk) >= 8:
                 yield dict(group=chunk)
                 chunk = []
     if chunk:
@@ -47,8 +49,8 @@ def cases(tier, seed):
     yield dict(contract=True)
 
 
-def build(sig, method):
-    src = gen_sig.source(sig, "f", method=method)
+def build(sig, method, dstyle=0):
+    src = gen_sig.source(sig, "f", method=method, dstyle=dstyle)
     ns = {}
     if method:
         exec("class C:\n" + src, ns)
@@ -91,7 +93,7 @@ def run_case(case, ctx):
 def run_one(case, ctx, filter_args):
     sig = tuple(tuple(s) for s in case["sig"])
     method = case["method"]
-    func, obj = build(sig, method)
+    func, obj = build(sig, method, case.get("dstyle", 0))
     names = [s[1] for s in sig if s[0] in "PKO"]
     keys = names + (["*"] if any(s[0] == "V" for s in sig) else []) + \
         (["**"] if any(s[0] == "W" for s in sig) else [])
@@ -114,7 +116,9 @@ def run_one(case, ctx, filter_args):
         if method:
             ctx.count("method_calls")
         if args or kwargs or exp:
-            ctx.sig((case["sig"], method, npos, kwnames))
+            ctx.sig((case["sig"], method, case.get("dstyle", 0), npos, kwnames))
+        if case.get("dstyle"):
+            ctx.count("calls_with_falsy_or_mutable_defaults")
         # 1) no ignore list; 2) one rotating ignore list
         ign_i += 1
         for ign in ((), ign_lists[ign_i % len(ign_lists)]):
